@@ -78,6 +78,8 @@ class Tagger:
     def _log(self, ctx, directive_args, kind, phase):
         scn = harness.scenario_of(ctx)
         scn.events.append((directive_args["id"], kind, phase))
+        if phase == "enter" and getattr(scn, "reject", None) == (directive_args["id"], kind):
+            raise ValueError("rejected by %s in its %s hook" % (directive_args["id"], kind))
 
     async def on_argument_execution(self, directive_args, next_directive, parent_node, argument_definition_node, argument_node, value, ctx):
         i = directive_args["id"]
@@ -300,6 +302,29 @@ def requests():
     return out
 
 
+REJECT_KINDS = ("x-literal", "x-variable", "x-nested-variable", "y-literal", "y-variable", "enum-literal", "enum-variable")
+
+
+def rejection_clause(p, req, rej, resp, log, logs):
+    """oracle for a run in which hook `rej` = (id, kind) raises on entry"""
+    if not isinstance(resp, dict) or "data" not in resp:
+        return "envelope"
+    if not resp.get("errors"):
+        return "rejection-not-reported"
+    fname = req.get("field") or {"x": "f", "e": "en"}[req["kind"][0]]
+    if resp["data"] is not None and resp["data"] != {fname: None}:
+        return "value-delivered-despite-rejection"
+    schema_ids = ids(p, "SCHEMA")
+    for full in logs:
+        cut = full.index((rej[0], rej[1], "enter"))
+        inner = [e for e in full[:cut + 1] if e[1] != "schema"]
+        if log == nest(schema_ids, "schema", inner):
+            return None
+    if any(e[0] == "resolver" for e in log):
+        return "resolver-ran-after-rejection"
+    return "stages-after-rejection"
+
+
 SCHEMA_LOCS = [l for l in LOCS if l != "QUERY_FIELD"]
 
 
@@ -358,6 +383,25 @@ def run_shard(item):
                     "summary": "%s: placement %r request %s vars=%r -> %r\n log      %r\n expected %r (data %r)" % (
                         clause, p, req["text"], req["vars"], resp, log, logs[0], datas[0]),
                     "replay": {"placement": list(p), "request": req["text"]}})
+                continue
+            if req["kind"] not in REJECT_KINDS or req.get("split"):
+                continue
+            # a hook that rejects its value (raises on entry): no later stage may run, the failure is reported, and the stages that
+            # did run are exactly those of the accepted run up to that hook -- whether the input is a literal or a variable
+            for rej in sorted({(e[0], e[1]) for e in logs[0] if e[1] in ("input", "argument", "field") and e[2] == "enter"}):
+                scn = Scenario(root={})
+                scn.reject = rej
+                resp = harness.execute(eng, req["text"], scn, variables=req["vars"])
+                out["counts"]["evaluations"] += 1
+                out["counts"]["rejections"] = out["counts"].get("rejections", 0) + 1
+                log = [e for e in scn.events if isinstance(e, tuple) and len(e) == 3 and e[0] != "hook"]
+                clause = rejection_clause(p, req, rej, resp, log, logs)
+                if clause:
+                    out["violations"].append({
+                        "signature": "%s|%s|rejecting-%s-hook" % (clause, req["kind"], rej[1]),
+                        "summary": "%s: placement %r request %s vars=%r, hook %r rejects -> %r\n log %r\n accepted run's log %r" % (
+                            clause, p, req["text"], req["vars"], rej, resp, log, logs[0]),
+                        "replay": {"placement": list(p), "request": req["text"], "reject": list(rej)}})
         harness.forget(name)
     if k == 0:
         out["samples"].append({"placement": list(ps[-1]) if ps else [], "sdl": sdl_for(ps[-1]) if ps else "", "requests": [r["text"] for r in reqs[:5]]})
@@ -391,9 +435,16 @@ def replay(rec):
         if r.get("request") and req["text"] != r["request"]:
             continue
         scn = Scenario(root={})
+        if r.get("reject"):
+            scn.reject = tuple(r["reject"])
         resp = harness.execute(eng, req["text"], scn, variables=req["vars"])
         datas, logs = expected(p, req)
         log = [e for e in scn.events if isinstance(e, tuple) and len(e) == 3 and e[0] != "hook"]
+        if r.get("reject"):
+            c = rejection_clause(p, req, tuple(r["reject"]), resp, log, logs)
+            if c:
+                out.append({"summary": "%s: placement %r request %s reject %r -> %r log %r" % (c, p, req["text"], r["reject"], resp, log)})
+            continue
         if resp.get("errors") or resp.get("data") not in datas or log not in logs:
             out.append({"summary": "placement %r request %s -> %r log %r expected %r" % (p, req["text"], resp, log, logs[0])})
     return out
